@@ -249,7 +249,18 @@ func judgeC04Api(c C04ApiCase) *Fail {
 	// permuted listing (claimed without biases: a bias' own importance sums run over
 	// the alternatives in listing order, so float noise could legitimately differ)
 	if len(v.biasNames()) > 0 {
-		return nil
+		// behind biases the relation is judged only where the unchanged code is listing-order independent by
+		// construction: biases that do not consume random numbers per alternative in listing order (everything but
+		// fatigue) on requests whose numbers are exact in binary (importance sums run in listing order)
+		if !exactRequest(v) {
+			return nil
+		}
+		for _, b := range v.biasNames() {
+			if b == "fatigue" {
+				return nil
+			}
+		}
+		st.inc("C04:permutation-behind-biases-checked")
 	}
 	st.inc("C04:permutation-checked")
 	m2 := deepCopyM(m).(M)
@@ -282,6 +293,29 @@ func judgeC04Api(c C04ApiCase) *Fail {
 	return nil
 }
 
+// exactRequest: every value, weight, capacity and declared range bound is a small multiple of 1/8.
+func exactRequest(v *ReqView) bool {
+	ok := func(x float64) bool { return x == math.Trunc(x*8)/8 && math.Abs(x) < 1e6 }
+	for _, a := range v.Known {
+		for _, x := range a.Vals {
+			if !ok(x) {
+				return false
+			}
+		}
+	}
+	for _, x := range numMap(v.MP["weights"]) {
+		if !ok(x) {
+			return false
+		}
+	}
+	for _, c := range v.Criteria {
+		if c.HasRange && (!ok(c.Min) || !ok(c.Max)) {
+			return false
+		}
+	}
+	return true
+}
+
 func genC04Api(t *rapid.T) C04ApiCase {
 	g := G{t}
 	o := GenOpts{Methods: utilityMethods, MaxBiases: 1, ValueMode: -1, TieHeavy: g.Chance(3, 4), MinAlts: 2}
@@ -289,9 +323,11 @@ func genC04Api(t *rapid.T) C04ApiCase {
 		o.MinAlts, o.MaxAlts = 12, 30 // many alternatives with ties
 	}
 	// biases whose random draws do not depend on the listing order of alternatives
-	o.Biases = []string{"criteriaOmission", "preferenceReversal"}
-	if g.Chance(2, 3) {
+	o.Biases = []string{"criteriaOmission", "preferenceReversal", "criteriaConcealment", "criteriaMixing", "anchoring"}
+	if g.Chance(1, 2) {
 		o.MaxBiases = 0
+	} else if g.Chance(1, 2) {
+		o.MaxBiases = 2
 	}
 	gr := genRequest(t, o)
 	if g.Chance(1, 3) {
